@@ -51,6 +51,12 @@ def scale_action(action, c):
     return action.multiply(c)
 
 
+def pick_action(action, label, dim=None, then_sum=None):
+    """function for Action.transform whose result already carries `dim` as a scalar coordinate (select without drop)"""
+    res = action.select({dim: label})
+    return res.sum(then_sum) if then_sum else res
+
+
 # ---------------------------------------------------------------- reference container
 class RefAction:
     def __init__(self, dims: list[str], labels: dict[str, list | None], vals: np.ndarray):
@@ -288,6 +294,20 @@ def apply_ref(r: RefAction, op: list, ishape_now) -> RefAction:
         for i in np.ndindex(r.vals.shape):
             out[i] = NPBIN[name](r.vals[i], o.vals[i])
         return RefAction(r.dims, r.labels, out)
+    if name == "transform_sel":
+        # pick members by label and re-join them along the dimension they were picked from
+        _, dim, picked, then_sum = op
+        parts = []
+        for lab in picked:
+            p = r.isel(dim, r.labels[dim].index(lab))
+            if then_sum:
+                p = p.reduce(NPRED["sum"], then_sum, False)
+            parts.append(p)
+        if len(parts) == 1:
+            return parts[0]
+        labels = dict(parts[0].labels)
+        labels[dim] = list(picked)
+        return RefAction([dim] + parts[0].dims, labels, np.stack([p.vals for p in parts], axis=0))
     if name == "transform":
         _, params, newdim, axis, coordlabels = op
         parts = []
@@ -374,6 +394,9 @@ def apply_impl(a, op: list, r_before: RefAction):
         dims, labels, shape = other_spec(operand, r_before, None)
         o = source_impl(1, shape, tuple(op[2]), dims, labels)
         return getattr(a, name)(o)
+    if name == "transform_sel":
+        _, dim, picked, then_sum = op
+        return a.transform(functools.partial(pick_action, dim=dim, then_sum=then_sum), [(lab,) for lab in picked], dim)
     if name == "transform":
         _, params, newdim, axis, coordlabels = op
         d = (newdim, list(coordlabels)) if coordlabels else newdim
